@@ -202,6 +202,22 @@ CHECKS.update({
         engine="registryfacts"),
 })
 
+CHECKS.update({
+    "C15": dict(
+        category="model_checking",
+        text="GoVersion.tla: every version string of a token grammar (prefix, major, separator, minor, suffix; 21 780 initial states) "
+             "with the documented and the transcribed parse result and numeric comparison (lexicographic what-if refuted); every "
+             "string also goes through the real ParseGoVersion / GreaterOrEqual. Gate: for every target from 1.13 to the newest "
+             "release in $GOROOT/api (plus unset and a far-future version) all registered checkers are constructed with that target and "
+             "analyse the example files and version-gated adversarial constructs; every std function, method or builtin named in a "
+             "recommendation (and absent from the flagged source line) is looked up in the API history and must not be newer than the "
+             "target; unset must equal the far-future target.",
+        design_ref="DESIGN.md section 6 C15",
+        note="User rule files are outside the claim; method names use their oldest introduction (conservative).",
+        technique="TLC sweep of version strings + gate replay against the Go API history",
+        engine="goversion"),
+})
+
 NOT_YET = "check not built yet (construction in progress; see DESIGN.md section 6)"
 NOT_APPLICABLE = {}
 
